@@ -1,0 +1,33 @@
+//go:build verif
+
+// Machine-checked contracts for package config (comment-only; read by
+// /verif/govc, never compiled into the program).
+
+package config
+
+// emptyG: a graph as returned by scheduler.NewExecutionGraph()
+//@ pred emptyG(g *scheduler.ExecutionGraph) := wfG(g) && (forall n string :: !(n in g.nodes) && len(g.to[n]) == 0)
+//@ pred cfgOK(cfg *Config) := cfg != nil && (forall k string :: k in cfg.Tasks ==> cfg.Tasks[k] != nil)
+
+// ---- C18: an accepted pipeline has no dangling reference; C08: every stage owns its task
+//@ func buildPipeline
+//@   requires emptyG(g) && cfgOK(cfg)
+//@   modifies *
+//@   ensures #C18.error-means-nil result#1 != nil ==> result == nil
+//@   ensures #C18.accepted-wf result#1 == nil ==> result == g && wfS(g) && depsAre(g) && hasWork(g)
+//@   loop 1 "range stages"
+//@     invariant #same g == g0 && cfg == cfg0 && stages == stages0 && wfG(g) && cfgOK(cfg)
+//@     invariant #nodes forall n string :: n in g.nodes ==> g.nodes[n] != nil && g.nodes[n].Name == n && (g.nodes[n].Pipeline != nil || g.nodes[n].Task != nil)
+//@     invariant #deps-in forall n string :: n in g.nodes ==> seqeq(g.to[n], g.nodes[n].DependsOn)
+//@     invariant #deps-out forall n string :: !(n in g.nodes) ==> len(g.to[n]) == 0
+//@   loop 2 "range g.Nodes()"
+//@     invariant #same g == g0 && wfG(g)
+//@     invariant #nodes forall n string :: n in g.nodes ==> g.nodes[n] != nil && g.nodes[n].Name == n && (g.nodes[n].Pipeline != nil || g.nodes[n].Task != nil)
+//@     invariant #deps-in forall n string :: n in g.nodes ==> seqeq(g.to[n], g.nodes[n].DependsOn)
+//@     invariant #C18.checked forall n string :: $seen[n] ==> (forall j int :: 0 <= j && j < len(g.nodes[n].DependsOn) ==> g.nodes[n].DependsOn[j] in g.nodes)
+//@   loop 3 "range stage.DependsOn"
+//@     invariant #same g == g0 && wfG(g) && stage != nil
+//@     invariant #nodes forall n string :: n in g.nodes ==> g.nodes[n] != nil && g.nodes[n].Name == n && (g.nodes[n].Pipeline != nil || g.nodes[n].Task != nil)
+//@     invariant #deps-in forall n string :: n in g.nodes ==> seqeq(g.to[n], g.nodes[n].DependsOn)
+//@     invariant #C18.checked forall n string :: $seen[n] && g.nodes[n] != stage ==> (forall j int :: 0 <= j && j < len(g.nodes[n].DependsOn) ==> g.nodes[n].DependsOn[j] in g.nodes)
+//@     invariant #C18.checking forall j int :: 0 <= j && j <= rangeindex ==> stage.DependsOn[j] in g.nodes
